@@ -7,6 +7,7 @@ import (
 	"fmt"
 	"net"
 	"sort"
+	"strings"
 	"time"
 
 	"github.com/thushan/olla/internal/app"
@@ -113,10 +114,22 @@ func Boot(o Opts) (*Olla, error) {
 	if o.Mutate != nil {
 		o.Mutate(cfg)
 	}
-	ctx, cancel := context.WithCancel(context.Background())
-	m, err := app.CreateAndStartServiceManager(ctx, cfg, lg)
-	if err != nil {
+	var ctx context.Context
+	var cancel context.CancelFunc
+	var m *services.ServiceManager
+	var err error
+	for attempt := 0; ; attempt++ {
+		ctx, cancel = context.WithCancel(context.Background())
+		m, err = app.CreateAndStartServiceManager(ctx, cfg, lg)
+		if err == nil {
+			break
+		}
 		cancel()
+		// another worker process may have taken the port between FreePort and ListenAndServe
+		if attempt < 8 && strings.Contains(err.Error(), "already in use") {
+			cfg.Server.Port = FreePort()
+			continue
+		}
 		return nil, err
 	}
 	ol := &Olla{Addr: fmt.Sprintf("127.0.0.1:%d", cfg.Server.Port), Cfg: cfg, Manager: m, cancel: cancel}
